@@ -393,3 +393,259 @@ def _es_inv(c, k):
         ("non-empty-stages", FA([s], z3.Implies(z3.And(0 <= s, s < k), ln(batch[s]) >= 1), batch[s])),
         ("removed-are-in-their-batch", FA([a], z3.Implies(z3.And(0 <= a, a < n0, rt[a] >= 0), z3.And(0 <= rs[a], rs[a] < ln(batch[rt[a]]), le(batch[rt[a]], rs[a]) == a)), rs[a])),
     ]
+
+
+# ============================================================================ get_disciplines_couplings
+NAME_LIST = TList(TStr)
+COUPLING = TTuple(TDisc, TDisc, NAME_LIST)
+COUPLINGS = TList(COUPLING)
+
+
+def cpl(t, i):
+    return COUPLING.dt.accessor(0, i)(t)
+
+
+def _couplings_prefix(R, count, io, tag):
+    """For t < count: the third item of R[t] lists exactly the names of the `io` attribute of the edge (R[t][0], R[t][1])."""
+    t, p = z3.Ints(f"t!{tag} p!{tag}")
+    k = z3.Const(f"k!{tag}", StrS)
+    e = R.elems[t]
+    names = set_member(io[cpl(e, 0)][cpl(e, 1)])
+    rng = z3.And(0 <= t, t < count)
+    return [
+        ("names-are-coupling-names", FA([t, p], z3.Implies(z3.And(rng, 0 <= p, p < ln(cpl(e, 2))), names[le(cpl(e, 2), p)]), le(cpl(e, 2), p))),
+        ("all-coupling-names", FA([t, k], z3.Implies(z3.And(rng, names[k]), z3.Exists([p], z3.And(0 <= p, p < ln(cpl(e, 2)), le(cpl(e, 2), p) == k))), names[k])),
+    ]
+
+
+@register
+class GetDisciplinesCouplings(Contract):
+    """One triple per edge of the graph (each edge once), with the names stored on the edge."""
+
+    targets = (DG + ".get_disciplines_couplings",)
+    prop = ("C08",)
+    returns = COUPLINGS
+    loops = {0: LoopSpec(anchor="self.__graph.edges(data=self.IO)", inv=lambda c, k: _dc_inv(c, k), local_types={"couplings": COUPLINGS})}
+
+    def ensures(self, c):
+        g, R = c.old.self._DependencyGraph__graph, c.result
+        t, t2 = z3.Ints("t!dc t2!dc")
+        u, v = D("u!dc"), D("v!dc")
+        e, e2 = R.elems[t], R.elems[t2]
+        return [
+            ("each-is-an-edge", FA([t], z3.Implies(z3.And(0 <= t, t < R.n), g.edge[cpl(e, 0)][cpl(e, 1)]), R.elems[t])),
+            ("every-edge-is-listed", FA([u, v], z3.Implies(g.edge[u][v], z3.Exists([t], z3.And(0 <= t, t < R.n, cpl(e, 0) == u, cpl(e, 1) == v))), g.edge[u][v])),
+            ("each-edge-once", z3.ForAll([t, t2], z3.Implies(z3.And(0 <= t, t < t2, t2 < R.n), z3.Or(cpl(e, 0) != cpl(e2, 0), cpl(e, 1) != cpl(e2, 1))))),
+        ] + _couplings_prefix(R, R.n, g.io, "dc")
+
+
+def _dc_inv(c, k):
+    g, R = c.old.self._DependencyGraph__graph, c.locals["couplings"]
+    t = z3.Int("t!dci")
+    e = R.elems[t]
+    return [
+        ("count", R.n == k),
+        ("edges-so-far", FA([t], z3.Implies(z3.And(0 <= t, t < k), z3.And(cpl(e, 0) == c.seq.eu[t], cpl(e, 1) == c.seq.ev[t])), R.elems[t])),
+    ] + _couplings_prefix(R, k, g.io, "dci")
+
+
+# ============================================================================ CouplingStructure
+schema(CS, {
+    "disciplines": DLIST,
+    "graph": TObj(DG),
+    "sequence": SEQ,
+    "_all_couplings": NAME_LIST,
+    "_strong_couplings": NAME_LIST,
+    "_weak_couplings": NAME_LIST,
+    "_weakly_coupled_disc": DLIST,
+    "_strongly_coupled_disc": DLIST,
+})
+
+
+def is_state(d, k):
+    r = z3.Const("r!st", StrS)
+    return z3.Exists([r], z3.And(PG.rts_member(d)[r], PG.rts_vals(d)[r] == k))
+
+
+def self_coupled(d):
+    """An output that is also an input and not a state variable of a residual."""
+    k = z3.Const("k!sc", StrS)
+    return z3.Exists([k], z3.And(in_names(d)[k], out_names(d)[k], z3.Not(is_state(d, k))))
+
+
+@register
+class IsSelfCoupled(Contract):
+    targets = (CS + ".is_self_coupled",)
+    prop = ("C08",)
+    params = {"discipline": TDisc}
+    returns = TBool
+
+    def ensures(self, c):
+        return [("value", c.result == self_coupled(c.old.discipline))]
+
+
+def list_is_set(lst_n, lst_el, member, tag, sort=StrS):
+    """The list holds exactly the elements of the set (order and multiplicity not specified)."""
+    p = z3.Int(f"p!{tag}")
+    k = z3.Const(f"k!{tag}", sort)
+    return [
+        ("only-members", FA([p], z3.Implies(z3.And(0 <= p, p < lst_n), member(lst_el[p])), lst_el[p])),
+        ("all-members", z3.ForAll([k], z3.Implies(member(k), z3.Exists([p], z3.And(0 <= p, p < lst_n, lst_el[p] == k))))),
+    ]
+
+
+def any_input(L, k, upto=None, tag="ai"):
+    i = z3.Int(f"i!{tag}")
+    return z3.Exists([i], z3.And(0 <= i, i < (L.n if upto is None else upto), in_names(L.elems[i])[k]))
+
+
+def any_output(L, k, upto=None, tag="ao"):
+    i = z3.Int(f"i!{tag}")
+    return z3.Exists([i], z3.And(0 <= i, i < (L.n if upto is None else upto), out_names(L.elems[i])[k]))
+
+
+@register
+class ComputeAllCouplings(Contract):
+    """_all_couplings = the names that are an input of some discipline and an output of some discipline."""
+
+    targets = (CS + "._compute_all_couplings",)
+    prop = ("C08",)
+    modifies = ("self",)
+    loops = {0: LoopSpec(anchor="self.disciplines", inv=lambda c, k: _ac_inv(c, k), modifies=("inputs", "outputs"), local_types={"inputs": NAMES, "outputs": NAMES})}
+
+    def ensures(self, c):
+        s0, s1 = c.old.self, c.new.self
+        L, r = s0.disciplines, s1._all_couplings
+        return list_is_set(r.n, r.elems, lambda k: z3.And(any_input(L, k), any_output(L, k)), "ac") + _cs_kept(s0, s1, "_all_couplings")
+
+
+def _ac_inv(c, k):
+    L = c.old.self.disciplines
+    x = z3.Const("x!aci", StrS)
+    return [
+        ("inputs", z3.ForAll([x], c.locals["inputs"].member[x] == any_input(L, x, k))),
+        ("outputs", z3.ForAll([x], c.locals["outputs"].member[x] == any_output(L, x, k))),
+    ]
+
+
+def _cs_kept(s0, s1, *changed):
+    out = []
+    for f in C.class_schema(CS):
+        if f in changed or f == "graph":
+            continue
+        a, b = getattr(s0, f), getattr(s1, f)
+        i = z3.Int("i!kept")
+        out.append((f"kept:{f}", z3.And(a.n == b.n, z3.ForAll([i], z3.Implies(z3.And(0 <= i, i < a.n), a.elems[i] == b.elems[i])))))
+    return out
+
+
+@register
+class FindDiscipline(Contract):
+    """The first discipline (in the caller's order) producing the output; ValueError iff there is none."""
+
+    targets = (CS + ".find_discipline",)
+    prop = ("C08",)
+    params = {"output": TStr}
+    returns = TDisc
+    raises = {"ValueError": lambda c: z3.Not(any_output(c.old.self.disciplines, c.old.output))}
+    loops = {0: LoopSpec(anchor="self.disciplines", inv=lambda c, k: [("not-before", z3.Not(any_output(c.old.self.disciplines, c.old.output, k)))])}
+
+    def ensures(self, c):
+        L, o = c.old.self.disciplines, c.old.output
+        i, j = z3.Ints("i!fd j!fd")
+        return [("first-producer", z3.Exists([i], z3.And(0 <= i, i < L.n, L.elems[i] == c.result.term if hasattr(c.result, "term") else L.elems[i] == c.result, out_names(L.elems[i])[o],
+                                                           z3.ForAll([j], z3.Implies(z3.And(0 <= j, j < i), z3.Not(out_names(L.elems[j])[o]))))))]
+
+
+def in_name_list(lst, k, tag="nl"):
+    i = z3.Int(f"i!{tag}")
+    return z3.Exists([i], z3.And(0 <= i, i < lst.n, lst.elems[i] == k))
+
+
+class _GetCouplings(Contract):
+    """The names of the discipline's outputs (inputs) that belong to the strong (all) couplings.
+    (The lazily filled lists _strong_couplings/_all_couplings are read as they are: see the _compute_* contracts.)"""
+
+    prop = ("C08",)
+    params = {"discipline": TDisc, "strong": TBool}
+    returns = NAME_LIST
+    names = staticmethod(out_names)
+
+    def ensures(self, c):
+        s, d, r = c.old.self, c.old.discipline, c.result
+        sel = lambda k: z3.If(c.old.strong, in_name_list(s._strong_couplings, k, "gs"), in_name_list(s._all_couplings, k, "ga"))  # noqa: E731
+        return list_is_set(r.n, r.elems, lambda k: z3.And(self.names(d)[k], sel(k)), "gc")
+
+
+@register
+class GetOutputCouplings(_GetCouplings):
+    targets = (CS + ".get_output_couplings",)
+
+
+@register
+class GetInputCouplings(_GetCouplings):
+    targets = (CS + ".get_input_couplings",)
+    names = staticmethod(in_names)
+
+
+# ============================================================================ MDOChain._execute
+CHAIN = "gemseo.core.chains.chain.MDOChain"
+IOCLS = "gemseo.core.discipline.io.IO"
+DATA = TDict(TStr, TVal)
+schema(IOCLS, {"_IO__data": DATA})
+schema(CHAIN, {"_ProcessDiscipline__disciplines": DLIST, "io": TObj(IOCLS)})
+
+_LS = z3.ArraySort(I, DiscS)
+fold_m = z3.Function("chain_fold_member", _LS, I, PG.DataM, PG.DataV, PG.DataM)
+fold_v = z3.Function("chain_fold_vals", _LS, I, PG.DataM, PG.DataV, PG.DataV)
+
+
+def chain_fold_axioms(L, m0, v0):
+    """Definition of the left fold  F(0) = data,  F(k+1) = F(k) updated with L[k].execute(F(k))  (keys and values)."""
+    k = z3.Int("k!cf")
+    x = z3.Const("k!up", StrS)
+    fm, fv = fold_m(L, k, m0, v0), fold_v(L, k, m0, v0)
+    em, ev = PG.exec_member(L[k], fm, fv), PG.exec_vals(L[k], fm, fv)
+    return [
+        ("fold-def:0", z3.And(fold_m(L, 0, m0, v0) == m0, fold_v(L, 0, m0, v0) == v0)),
+        ("fold-def:member", z3.ForAll([k], z3.Implies(k >= 0, fold_m(L, k + 1, m0, v0) == z3.Lambda([x], z3.Or(fm[x], em[x]))), patterns=[fold_m(L, k + 1, m0, v0)])),
+        ("fold-def:vals", z3.ForAll([k], z3.Implies(k >= 0, fold_v(L, k + 1, m0, v0) == z3.Lambda([x], z3.If(em[x], ev[x], fv[x]))), patterns=[fold_v(L, k + 1, m0, v0)])),
+    ]
+
+
+@register
+class ChainExecute(Contract):
+    """The data after the loop is the left fold, in list order, of `data.update(d.execute(data))`."""
+
+    targets = (CHAIN + "._execute",)
+    prop = ("C08",)
+    modifies = ("self.io",)
+    loops = {0: LoopSpec(anchor="self.disciplines", inv=lambda c, k: _ce_inv(c, k), modifies=("self.io",))}
+
+    def requires(self, c):
+        s = c.old.self
+        return chain_fold_axioms(s._ProcessDiscipline__disciplines.elems, s.io._IO__data.member, s.io._IO__data.vals)
+
+    def ensures(self, c):
+        s0, s1 = c.old.self, c.new.self
+        L = s0._ProcessDiscipline__disciplines
+        return _ce_fold(s0, s1, L.n)
+
+
+def _ce_fold(s0, s1, k):
+    L = s0._ProcessDiscipline__disciplines
+    d0, d1 = s0.io._IO__data, s1.io._IO__data
+    x = z3.Const("x!ce", StrS)
+    fm, fv = fold_m(L.elems, k, d0.member, d0.vals), fold_v(L.elems, k, d0.member, d0.vals)
+    return [
+        ("keys-are-the-fold", z3.ForAll([x], d1.member[x] == fm[x])),
+        ("values-are-the-fold", z3.ForAll([x], z3.Implies(d1.member[x], d1.vals[x] == fv[x]))),
+    ]
+
+
+def _ce_inv(c, k):
+    s0, s1 = c.old.self, c.new.self
+    d0, d1 = s0.io._IO__data, s1.io._IO__data
+    L = s0._ProcessDiscipline__disciplines
+    # (array-level equality: the discipline is executed on exactly the folded data)
+    return [("data-is-the-fold", z3.And(d1.member == fold_m(L.elems, k, d0.member, d0.vals), d1.vals == fold_v(L.elems, k, d0.member, d0.vals)))]
